@@ -231,6 +231,19 @@ def run(res):
         j += 1
         if toks[i]:
             inputs.append(("mutant", c20.mutate(rng, progs[i], toks[i])))
+    # a line break (or a stray separator) right after an opening bracket, an operator or a separator of a valid program
+    cnt = 0
+    j = 0
+    while cnt < nmut // 2 and j < 50 * nmut:
+        i = j % len(progs)
+        j += 1
+        cand = [t for t in toks[i] if progs[i][t[1]:t[2] + 1] in ("[", "(", "{", ",", ":", ":=", "=", "+", "-", "*", "==", "&&", "||", "?", "!", "in", "return", "case", ".", "<-", "|")]
+        if not cand:
+            continue
+        t = rng.choice(cand)
+        ins = rng.choice(["\n", "\n", "\n\n", "\r\n", ";", " \n ", "\n#c\n", "\n//c\n", "/*c*/\n"])
+        inputs.append(("break-after", progs[i][:t[2] + 1] + ins + progs[i][t[2] + 1:]))
+        cnt += 1
     cnt = 0
     while cnt < ntrunc:
         i = rng.below(len(progs))
